@@ -22,7 +22,8 @@ def core(name, text, args, tags=(), entry=None):
 def namespace():
     import fpy2 as fp
     return dict(F5=fp.IEEEContext(5, 10), F4Z=fp.IEEEContext(5, 9, fp.RM.RTZ), F3U=fp.IEEEContext(5, 8, fp.RM.RTP), F3D=fp.IEEEContext(5, 8, fp.RM.RTN),
-                F4A=fp.IEEEContext(5, 9, fp.RM.RNA), INT=fp.INTEGER, INTU=fp.INTEGER.with_params(rm=fp.RM.RTP))
+                F4A=fp.IEEEContext(5, 9, fp.RM.RNA), INT=fp.INTEGER, INTU=fp.INTEGER.with_params(rm=fp.RM.RTP),
+                FX=fp.FixedContext(True, -1, 16, fp.RM.RTZ, fp.OV.SATURATE), FX0=fp.FixedContext(True, 0, 12, fp.RM.RTP, fp.OV.SATURATE))
 
 
 # ---- contexts: sequence, nesting, continuation after an inner block ------------------------------------------------------
@@ -506,6 +507,78 @@ def f(x: fp.Real, y: fp.Real) -> fp.Real:
 ''', 'f', ['real', 'real'], ['call', 'context', 'funcctx'])
 
 
+# ---- reported by a seeding agent on the unmodified tree ---------------------------------------------------------------------------
+prog('fixed_point_contexts', '''
+@fp.fpy
+def f(x: fp.Real, y: fp.Real) -> fp.Real:
+    with FX:
+        a = x * y
+    with FX0:
+        b = a + x
+    with F5:
+        r = a - b
+    return r
+''', 'f', ['real', 'real'], ['context', 'fixed'])
+
+prog('for_range_step', '''
+@fp.fpy
+def f(x: fp.Real, y: fp.Real) -> fp.Real:
+    with F5:
+        t = x
+        for i in range(0, 10, 3):
+            t = t + y
+    return t
+''', 'f', ['real', 'real'], ['loop', 'range'])
+
+prog('for_target_rebinds', '''
+@fp.fpy
+def f(xs: list[fp.Real], x: fp.Real) -> fp.Real:
+    with F5:
+        s = x * x
+        for x in xs:
+            s = s + x
+        r = s + x
+    return r
+''', 'f', [('list', [1, 2]), 'real'], ['loop', 'tensor'])
+
+prog('for_target_rebinds_two_accs', '''
+@fp.fpy
+def f(xs: list[fp.Real], x: fp.Real) -> fp.Real:
+    with F5:
+        s = x * x
+        c = x
+        for x in xs:
+            s = s + x
+            c = c - x
+        r = (s + x) - c
+    return r
+''', 'f', [('list', [1, 2]), 'real'], ['loop', 'tensor'])
+
+prog('while_condition_lowers_to_statements', '''
+@fp.fpy
+def f(x: fp.Real, y: fp.Real) -> fp.Real:
+    with F5:
+        i = 0
+        t = x
+        while (i if i < 2 else i * 2) < 5:
+            i = i + 1
+            t = t + y
+    return t
+''', 'f', ['real', 'real'], ['loop'])
+
+prog('while_condition_minmax', '''
+@fp.fpy
+def f(x: fp.Real, y: fp.Real) -> fp.Real:
+    with F5:
+        i = 0
+        t = x
+        while min(i, 3) < max(2, 2):
+            i = i + 1
+            t = t * y + x
+    return t
+''', 'f', ['real', 'real'], ['loop'])
+
+
 # ======== FPCore texts (FPCore -> FPy) ====================================================================================================
 core('ann_round_only', '(FPCore f (x y) :precision (float 5 9) :round toZero (+ (* x y) (! :round toPositive (+ x y))))', ['real', 'real'], ['props'])
 core('ann_nested_partial', '(FPCore f (x y) (! :round toNegative (! :precision (float 5 8) (+ (* x y) (! :round toPositive (* x y))))))', ['real', 'real'], ['props', 'nested'])
@@ -529,3 +602,8 @@ core('array_of_arrays', '(FPCore f (x y) :precision (float 5 10) (let ([m (array
 core('cmp_chains', '(FPCore f (x y z) :precision (float 5 10) (if (and (< x y z) (!= x y z)) (+ x z) (if (or (>= x y z) (== x y)) (- x z) (* y 2))))', ['real', 'real', 'real'], ['compare', 'branch'])
 core('integer_round_inherits', '(FPCore f (x y) :round toPositive (+ (! :precision integer (+ x y)) (! :precision integer :round toNegative (+ x y))))', ['real', 'real'], ['props', 'integer'])
 core('default_binary64', '(FPCore f (x y) (+ (! :precision (float 5 8) (* x y)) x))', ['real', 'real'], ['props', 'ambient'])
+core('round_without_precision', '(FPCore f (x y) :round toZero (- (! :precision (float 5 8) (+ (* x y) x)) (! :precision (float 5 8) :round toPositive (+ (* x y) x))))', ['real', 'real'], ['props', 'ambient'])
+core('round_without_precision_in_loop', '(FPCore f (x y) :round toNegative (for ([i 2]) ([s x (! :precision (float 5 8) (+ (* s y) x))]) s))', ['real', 'real'], ['props', 'ambient', 'loop'])
+core('fixed_precision', '(FPCore f (x y) :precision (fixed -1 16) :round toZero (+ (* x y) (! :precision (fixed 0 12) :round toPositive (* x y))))', ['real', 'real'], ['props', 'fixed'])
+core('round_without_precision_binary64', '(FPCore f (x y) :round toZero (+ (* x y) 0.1))', ['real', 'real'], ['props', 'ambient', 'constant'])
+core('round_without_precision_literal', '(FPCore f (x) :round toPositive (- (+ x 0.1) (! :round toNegative (+ x 0.1))))', ['real'], ['props', 'ambient', 'constant'])
